@@ -5,8 +5,9 @@ from .sym import Contract
 CONTRACTS: list[Contract] = []
 
 
-def contract(qual, **kw):
+def contract(qual, joined_locals=(), **kw):
     c = Contract(qual, **kw)
+    c.joined_locals = tuple(joined_locals)
     CONTRACTS.append(c)
     return c
 
